@@ -297,7 +297,7 @@ Definition old_data (p : pre) : data :=
 
 Lemma create_file_spec o p size sp dd : create_file o p size sp = Some dd -> dd = ensure_size (old_data p) size sp.
 Proof.
-  unfold create_file, old_data. destruct p as [|d hl rd me|ne|]; try (intros H; inversion H; reflexivity).
+  unfold create_file, old_data. destruct p as [|d hl rd me|ne|dst]; try (intros H; inversion H; reflexivity).
   destruct (andb ne (negb (o_allow_rec o))); intros H; inversion H; reflexivity.
 Qed.
 
@@ -432,4 +432,11 @@ Example c19_nonvacuous_hardlinked :
   restore_file (mkO OwAlways true false false true)
                (PReg [1;1;1;9;1;1;1;1]%N true true false) [[1;1;1;0]%N; [1;1;1;1]%N]
   = (FReg [1;1;1;0;1;1;1;1]%N, false).
+Proof. vm_compute. reflexivity. Qed.
+
+(* a symlink in the way that points to an older version of the file: its destination is never consulted *)
+Example c19_nonvacuous_symlink_to_old_version :
+  restore_file (mkO OwIfChanged true false false true)
+               (PLink (Some [1;1;1;9;9]%N)) [[1;1;1]%N; [3;3]%N]
+  = (FReg [1;1;1;3;3]%N, false).
 Proof. vm_compute. reflexivity. Qed.
